@@ -63,7 +63,8 @@ CaseTags(ev) ==
 RenderTags(ev) ==
     LET ty == IF ev.key \in {"o", "tpo"} THEN "ordinal" ELSE "cardinal"
         cat == Oracle.cats[ev.locale][ty][ev.tok]
-        want == CASE ev.key = "k" -> FormText(M(cat, "cardinal"))
+        \* key d is defined (all six forms) in the default locale only: a defaulted plural still follows the rendered locale's rules
+        want == CASE ev.key \in {"k", "d"} -> FormText(M(cat, "cardinal"))
                   [] ev.key = "o" -> FormText(M(cat, "ordinal"))
                   [] ev.key = "m" -> FormText(M(FormFor({"one", "other"}, cat), "cardinal"))
                   [] OTHER -> FormSym[FormFor({"one", "other"}, cat)] IN
